@@ -34,7 +34,14 @@ namespace
         }
     }
     const size_t NK = 9;
-    const size_t MAXL = 4;
+    // maximal program length of the enumerated space: 4 (the statement's bound), or the value of
+    // the environment variable VERIF_C20_MAXL (the thorough tier uses 5)
+    size_t maxl()
+    {
+        const char* e = getenv("VERIF_C20_MAXL");
+        size_t v = e ? static_cast<size_t>(atoi(e)) : 4;
+        return v >= 1 && v <= 6 ? v : 4;
+    }
 
     va::GridSpec fixed_grid(size_t t)
     {
@@ -70,7 +77,7 @@ namespace
 static size_t enum_count()
 {
     size_t per = 0, p = 1;
-    for (size_t L = 0; L <= MAXL; ++L)
+    for (size_t L = 0; L <= maxl(); ++L)
     {
         per += p;
         p *= NK;
